@@ -444,6 +444,8 @@ def run(tier, seed):
             ('nested', 'NoData', ['B2'], ['B2'], False, 'plain', P, ['A1'], 0, seed, 3),
             ('capture', 'NoData', ['B1'], ['B1'], False, 'plain', P, ['A2'], 0, seed, 4),
             ('trimex', 'NoData', ['C2'], ['C2'], False, 'plain', P, ['A1'], 0, seed, 4),
+            # stored results, the build of the graph fails: bystander ranges
+            ('trimex', 'Stored', ['C2'], ['C2'], False, 'plain', P, ['A1'], 0, seed, 4),
         ]
     else:
         jobs = []
